@@ -32,9 +32,10 @@ EXTENDS Naturals, Integers, Sequences, FiniteSets, TLC
 CONSTANTS Configs,  \* set of [kinds, bound, emode, prog]
           Fix
 
-VARIABLES cfg, box, nd, head, lock, tok, cst, crnd, stk, opi, queue, H
+VARIABLES cfg, box, nd, head, lock, tok, cst, crnd, stk, opi, queue, H,
+          val      \* the futex word: starts at 0, every "u" operation of a waker stores the next value
 
-vars == <<cfg, box, nd, head, lock, tok, cst, crnd, stk, opi, queue, H>>
+vars == <<cfg, box, nd, head, lock, tok, cst, crnd, stk, opi, queue, H, val>>
 
 MaxS == 6
 Slots == 1..MaxS
@@ -47,9 +48,10 @@ IsWorker(t) == t > NT
 ExOf(t) == t - NT
 
 NoId == <<0, 0>>
-Node0 == [prev |-> 0, next |-> 0, w |-> 0, r |-> 0, g |-> 0]
+Node0 == [prev |-> 0, next |-> 0, w |-> 0, r |-> 0, g |-> 0, exp |-> 0]
+Never == 99   \* expected value of an "x" round: never stored
 F0 == [k |-> "", pc |-> "", w |-> 0, r |-> 0, node |-> 0, nxt |-> 0, id |-> NoId, ok |-> FALSE, hd |-> 0, tail |-> 0,
-       cur |-> 0, elig |-> {}, mine |-> {}, done |-> {}, n |-> 0, ex |-> 0]
+       cur |-> 0, elig |-> {}, mine |-> {}, done |-> {}, n |-> 0, ex |-> 0, exp |-> 0, after |-> -1]
 
 InitFor(c) ==
   /\ cfg = c
@@ -63,7 +65,8 @@ InitFor(c) ==
   /\ stk = [t \in 1..(Len(c.prog) + Len(c.emode)) |-> << >>]
   /\ opi = [t \in 1..Len(c.prog) |-> 1]
   /\ queue = [e \in 1..Len(c.emode) |-> << >>]
-  /\ H = [bad |-> ""]
+  /\ H = [bad |-> "", clean |-> -1]
+  /\ val = 0
 
 Init == \E c \in Configs : InitFor(c)
 
@@ -121,7 +124,9 @@ CoStep(t) ==
              /\ stk' = Pop(t)
         ELSE \* co_await futex.wait(...): the coroutine is suspended, await_suspend runs on this thread
              /\ cst' = [cst EXCEPT ![w] = "susp"]
-             /\ stk' = SetTop(t, [F0 EXCEPT !.k = "as", !.pc = "emplace", !.w = w, !.r = r, !.ex = f.ex])
+             \* kinds: "m"/"c" wait for the initial value 0, "x" for a value never stored, "d" for the value read just now
+             /\ stk' = SetTop(t, [F0 EXCEPT !.k = "as", !.pc = "emplace", !.w = w, !.r = r, !.ex = f.ex,
+                                            !.exp = IF cfg.kinds[w][r] = "x" THEN Never ELSE IF cfg.kinds[w][r] = "d" THEN val ELSE 0])
      /\ UNCHANGED <<box, nd, head, lock, tok, queue>>
 
 (***************************************************************************)
@@ -131,7 +136,7 @@ AsStep(t) ==
   LET f == Top(t)
       w == f.w
       s == f.id[1]
-      match == cfg.kinds[w][f.r] # "x"
+      match == f.exp = val        \* add_awaiter: expected_value == _value, under the mutex
   IN /\ f.k = "as"
      /\ CASE f.pc = "emplace" ->
                LET reuse == box.free # << >>
@@ -143,7 +148,7 @@ AsStep(t) ==
                   /\ stk' = SetTop(t, [f EXCEPT !.pc = "fill", !.id = <<ns, box.gen[ns] + 1>>])
                   /\ UNCHANGED <<head, lock, tok, cst, crnd, queue, H>>
           [] f.pc = "fill" ->
-               /\ nd' = [nd EXCEPT ![s] = [Node0 EXCEPT !.w = w, !.r = f.r, !.g = f.id[2]]]
+               /\ nd' = [nd EXCEPT ![s] = [Node0 EXCEPT !.w = w, !.r = f.r, !.g = f.id[2], !.exp = f.exp]]
                /\ stk' = SetTop(t, [f EXCEPT !.pc = "lock"])
                /\ UNCHANGED <<box, head, lock, tok, cst, crnd, queue, H>>
           [] f.pc = "lock" ->
@@ -255,7 +260,8 @@ WakeAllStep(t) ==
                IF c = 0
                THEN \* returns: everything this call took must have been resumed by it
                     /\ stk' = Pop(t)
-                    /\ H' = IF f.mine \ f.done # {} THEN Bad("WakeAllWakesAll") ELSE H
+                    /\ H' = LET h == IF f.mine \ f.done # {} THEN Bad("WakeAllWakesAll") ELSE H
+                            IN [h EXCEPT !.clean = IF f.after > @ THEN f.after ELSE @]
                     /\ UNCHANGED <<box, nd, head, lock, tok, cst, crnd, queue>>
                ELSE /\ stk' = SetTop(t, [f EXCEPT !.pc = "b_resume"])
                     /\ UNCHANGED <<box, nd, head, lock, tok, cst, crnd, queue, H>>
@@ -309,6 +315,7 @@ CancelStep(t) ==
 (***************************************************************************)
 (* program threads and executor workers                                    *)
 (***************************************************************************)
+NextOp(t) == IF IsWorker(t) \/ opi[t] > Len(cfg.prog[t]) THEN [op |-> "-", w |-> 0, r |-> 0] ELSE cfg.prog[t][opi[t]]
 Dispatch(t) ==
   /\ ~IsWorker(t) /\ stk[t] = << >> /\ opi[t] <= Len(cfg.prog[t])
   /\ LET o == cfg.prog[t][opi[t]] IN
@@ -322,13 +329,17 @@ Dispatch(t) ==
             /\ opi' = [opi EXCEPT ![t] = @ + 1]
             /\ UNCHANGED <<box, nd, head, lock, tok, crnd, H>>
        [] o.op = "k" ->
-            /\ stk' = [stk EXCEPT ![t] = <<[F0 EXCEPT !.k = "k", !.pc = "k_lock"]>>]
+            /\ stk' = [stk EXCEPT ![t] = <<[F0 EXCEPT !.k = "k", !.pc = "k_lock", !.after = val]>>]
             /\ opi' = [opi EXCEPT ![t] = @ + 1]
             /\ UNCHANGED <<box, nd, head, lock, tok, cst, crnd, queue, H>>
        [] o.op = "a" ->
-            /\ stk' = [stk EXCEPT ![t] = <<[F0 EXCEPT !.k = "a", !.pc = "a_lock"]>>]
+            /\ stk' = [stk EXCEPT ![t] = <<[F0 EXCEPT !.k = "a", !.pc = "a_lock", !.after = val]>>]
             /\ opi' = [opi EXCEPT ![t] = @ + 1]
             /\ UNCHANGED <<box, nd, head, lock, tok, cst, crnd, queue, H>>
+       [] o.op = "u" ->      \* the waker's half of the protocol: store a new value (then wake)
+            /\ val' = val + 1
+            /\ opi' = [opi EXCEPT ![t] = @ + 1]
+            /\ UNCHANGED <<box, nd, head, lock, tok, cst, crnd, stk, queue, H>>
        [] o.op = "c" ->      \* cancellation token of round o.r of waiter o.w, once it exists; skipped if it never will
             /\ \/ /\ tok[o.w][o.r] # NoId
                   /\ stk' = [stk EXCEPT ![t] = <<[F0 EXCEPT !.k = "x", !.pc = "x_take", !.id = tok[o.w][o.r]]>>]
@@ -345,10 +356,10 @@ Worker(t) ==
 
 Step(t) ==
   /\ UNCHANGED cfg
-  /\ \/ Dispatch(t)
-     \/ Worker(t)
+  /\ \/ Dispatch(t) /\ (NextOp(t).op = "u" \/ UNCHANGED val)
+     \/ Worker(t) /\ UNCHANGED val
      \/ /\ stk[t] # << >>
-        /\ UNCHANGED opi
+        /\ UNCHANGED <<opi, val>>
         /\ \/ CoStep(t)
            \/ AsStep(t)
            \/ WakeOneStep(t)
@@ -359,7 +370,6 @@ Step(t) ==
 (* L1 clauses of C13 for the coroutine futex                                *)
 (***************************************************************************)
 \* nothing can happen any more
-NextOp(t) == IF opi[t] > Len(cfg.prog[t]) THEN [op |-> "-", w |-> 0, r |-> 0] ELSE cfg.prog[t][opi[t]]
 Stalled(o) == \/ o.op = "-"
               \/ (o.op = "s" /\ cst[o.w] # "new")
               \/ (o.op = "c" /\ tok[o.w][o.r] = NoId /\ ~(crnd[o.w] > o.r \/ cst[o.w] = "done"))
@@ -377,9 +387,15 @@ WakeAllWakesAll == H.bad # "WakeAllWakesAll"
 ResumedOnBoundExecutor == H.bad # "ResumedOnBoundExecutor"
 \* a wait with a non-matching value never becomes resumable by others (never linked, no token)
 MismatchDoesNotSuspend ==
-  \A s \in OnList : nd[s].w \in W /\ nd[s].r \in 1..Len(cfg.kinds[nd[s].w]) => cfg.kinds[nd[s].w][nd[s].r] # "x"
+  /\ \A s \in OnList : nd[s].w \in W /\ nd[s].r \in 1..Len(cfg.kinds[nd[s].w]) => cfg.kinds[nd[s].w][nd[s].r] # "x"
+  \* the word only grows: nobody is linked (and claimable) while waiting for a value newer than the word
+  /\ \A s \in OnList : Live(IdOf(s)) => nd[s].exp <= val
 \* once nothing is running, whoever is still suspended can still be woken (nobody owns its resumption and went away)
-NeverLeftSuspendedAfterWakeCondition == Quiescent => \A w \in W : cst[w] = "susp" => Wakeable(w)
+NeverLeftSuspendedAfterWakeCondition ==
+  /\ Quiescent => \A w \in W : cst[w] = "susp" => Wakeable(w)
+  \* no lost wake-up: once a wake_all that was called after the store of value v has returned, nobody is (still or newly)
+  \* on the list waiting for a value older than v - check-and-enqueue is atomic with respect to wakers
+  /\ \A s \in OnList : Live(IdOf(s)) => nd[s].exp >= H.clean
 \* per-wait bookkeeping: at quiescence every slot that is not free belongs to a waiter that is still waiting in it
 NoSlotLeak ==
   /\ H.bad # "NoSlotLeak"
